@@ -1,9 +1,9 @@
 (* Model/Assign.v — C07: the bookkeeping of the obstacle / lanelet assignment.
-   commonroad/scenario/scenario.py: add_objects for obstacles (686-731), _add/_remove_static/dynamic_
-   obstacle_(to|from)_lanelets (773-840), remove_obstacle (842-887), assign_obstacles_to_lanelets
-   (1203-1295); commonroad/scenario/lanelet.py: add_dynamic_obstacle_to_lanelet /
-   add_static_obstacle_to_lanelet (993-1010); the reader-side assignment of
-   common/reader/file_reader_xml.py:1154-1296 (file_reader_protobuf.py:594-665, 853-912 is the same
+   commonroad/scenario/scenario.py: add_objects for obstacles (726-735), _add/_remove_static/dynamic_
+   obstacle_(to|from)_lanelets (772-852), remove_obstacle (854-900), assign_obstacles_to_lanelets
+   (1222-1319; line numbers of the repaired file); commonroad/scenario/lanelet.py:
+   add_dynamic_obstacle_to_lanelet / add_static_obstacle_to_lanelet (999-1016); the reader-side assignment of
+   common/reader/file_reader_xml.py:1152-1295 (file_reader_protobuf.py:594-665, 853-912 is the same
    code).  The model describes the repaired code (the four "fix:" commits of branch fix-r2-c07: a static
    obstacle is registered on the lanelets that are stored; remove_obstacle clears the lanelets of the shape
    and of the centre assignment with discard; find_lanelet_by_shape accepts a ShapeGroup; time steps
